@@ -38,6 +38,9 @@ type Scenario struct {
 	Corrupt   int // number of corrupted copies of captured datagrams injected (C06)
 	Garbage   int // number of random / mutated datagrams injected (C05)
 	CloseMid  bool // close everything in the middle of the transfer instead of after completion (C15)
+	Vec       bool // C01: the writers use WriteBuffers with vectors of 2-4 slices and short write deadlines; a call that fails reports how many
+	               // bytes it accepted (io.Writer), the application retries the rest -- so bytes queued by a call that reported fewer show
+	               // up twice in the peer's stream. Stream mode only (a vector is cut into messages slice by slice).
 	ForgeRec  bool // C05: an on-path adversary drops one data packet of every fourth FEC group and alters the group's first parity packet so
 	// that the packet the receiver RECONSTRUCTS carries a boundary value in its size prefix (no cipher)
 	RateLimit int  // bytes per second handed to SetRateLimit on both sessions (0: none): the post-processing goroutine lags behind
@@ -261,10 +264,37 @@ func runTransfer(t *testing.T, sc Scenario, sum *summary, tf *vh.TraceFile) {
 				b := make([]byte, n)
 				vh.Fill(b, id, off)
 				mss := mssOf(s)
-				s.SetWriteDeadline(time.Now().Add(ioTimeout))
-				// logged before the call: the peer may read these bytes before Write returns
-				w.Ev(map[string]any{"ev": "write", "conn": name, "n": n, "off": off, "mss": mss})
-				k, err := s.Write(b)
+				var k int
+				var err error
+				if sc.Vec {
+					var vec [][]byte
+					rest := b
+					for i := 0; i < 3 && len(rest) > 1; i++ {
+						c := 1 + rng.Intn(len(rest)-1)
+						if rng.Intn(2) == 0 && len(rest) > 2*mss {
+							c = mss * (1 + rng.Intn(2)) // whole segments: the window fills exactly at a slice boundary
+						}
+						vec = append(vec, rest[:c])
+						rest = rest[c:]
+					}
+					vec = append(vec, rest)
+					s.SetWriteDeadline(time.Now().Add(time.Duration([]int{5, 30, 80, 300}[rng.Intn(4)]) * time.Millisecond))
+					k, err = s.WriteBuffers(vec)
+					if err != nil && isTimeout(err) && time.Since(w.Env.Start) < ioTimeout {
+						// nothing (or only k bytes) accepted, says the call: the application tries again with the rest
+						w.Ev(map[string]any{"ev": "writeretry", "conn": name, "off": off, "k": k, "slices": len(vec)})
+						off += int64(k)
+						continue
+					}
+					if err == nil {
+						w.Ev(map[string]any{"ev": "write", "conn": name, "n": k, "off": off, "mss": mss})
+					}
+				} else {
+					s.SetWriteDeadline(time.Now().Add(ioTimeout))
+					// logged before the call: the peer may read these bytes before Write returns
+					w.Ev(map[string]any{"ev": "write", "conn": name, "n": n, "off": off, "mss": mss})
+					k, err = s.Write(b)
+				}
 				if err != nil {
 					w.Ev(map[string]any{"ev": "writeerr", "conn": name, "off": off, "timeout": isTimeout(err)})
 					return
@@ -786,6 +816,20 @@ func effRcvWnd(settled *map[string]bool, name string, st kcp.VerifKCPState) int 
 		return wnd
 	}
 	return 32
+}
+
+// TestSessVector (C01): vectored writes with short deadlines behind small send windows; see Scenario.Vec.
+func TestSessVector(t *testing.T) {
+	scenarioBatch(t, "sess_vector", func(r int, rng *rand.Rand, sc *Scenario) {
+		sc.Vec = true
+		sc.Cfg.Stream = true
+		sc.Cfg.SndWnd = []int{2, 4, 8, 32}[r%4]
+		sc.MaxDelay = []int{10, 60}[rng.Intn(2)]
+		sc.BackBytes = []int{0, 20000}[rng.Intn(2)]
+		if r%5 == 1 {
+			sc.Outage = []int{500, 5000}[rng.Intn(2)]
+		}
+	})
 }
 
 // TestSessForgedRecovery (C05): see recoveryForger.
